@@ -669,19 +669,24 @@ def connect_coding_graph(observed_length, vertices, threshold, verbose=False):
         if threshold == 1:
             while True:
                 vertices = obtain_vertices(accessor)
-                graph = DiGraph()
-                for former_index, latter_indices in enumerate(accessor):
-                    for latter_index in latter_indices:
-                        if latter_index >= 0:
-                            graph.add_edge(u_of_edge=former_index, v_of_edge=latter_index)
-                useless_vertices, cycle = [], find_cycle(graph)
-                for former_index, latter_index in cycle:
-                    if len(where(accessor[former_index] >= 0)[0]) == 1:
-                        useless_vertices.append(former_index)
-                if len(useless_vertices) == len(cycle):
+                if len(vertices) == 0:
+                    raise ValueError("No coding graph is created!")
+                # a vertex is useful if it has two or more arcs or can reach such a vertex.
+                useful = sum(accessor >= 0, axis=1) > 1
+                while True:
+                    expanded = useful.copy()
+                    for vertex_index in vertices:
+                        if not useful[vertex_index]:
+                            latter_indices = accessor[vertex_index][accessor[vertex_index] >= 0]
+                            expanded[vertex_index] = sum(useful[latter_indices]) > 0
+                    if sum(expanded) == sum(useful):
+                        break
+                    useful = expanded
+                useless_vertices = [vertex_index for vertex_index in vertices if not useful[vertex_index]]
+                if len(useless_vertices) > 0:
                     for useless_vertex in useless_vertices:
                         accessor[useless_vertex] = -1
-                        pairs = [(i, useless_vertex) for i in obtain_formers(useless_vertex, 10)]
+                        pairs = [(i, useless_vertex) for i in obtain_formers(useless_vertex, observed_length)]
                         while len(pairs) > 0:
                             new_pairs = []
                             for former_index, latter_index in pairs:
@@ -689,7 +694,7 @@ def connect_coding_graph(observed_length, vertices, threshold, verbose=False):
                                 accessor[former_index, latter_index % 4] = -1
                                 current = len(where(accessor[former_index] >= 0)[0])
                                 if previous > current == 0:
-                                    new_pairs += [(i, former_index) for i in obtain_formers(former_index, 10)]
+                                    new_pairs += [(i, former_index) for i in obtain_formers(former_index, observed_length)]
                             pairs = new_pairs
                 else:
                     break
